@@ -99,12 +99,12 @@ def build_traces(path, tier, seed):
             v = v - 3 * np.max(np.abs(v)) - 1.0            # all negative: negative side means
         steps = int([1, 2, n, rng.integers(1, n + 1), rng.integers(1, min(n, 25) + 1)][i % 5])
         mode = ["forward", "backward", "centre", "center"][i % 4]
-        out = av.calc_roll_av_vals(v, steps, mode=mode)
+        out = av.calc_roll_av_vals(v, gen.intlike(rng, steps), mode=mode)
         add({"kind": "rollav", "v": enc_seq(v), "steps": steps, "mode": "centre" if mode == "center" else mode, "out": enc_seq(out)},
             {"kind": "rollav", "n": n, "steps": steps, "mode": mode, "shape": shape})
         if n <= 600:
             p = 1 + (i % 2)
-            err = np.asarray(av.calc_step_fn_vals_error(v, pow=p), dtype=float)
+            err = np.asarray(av.calc_step_fn_vals_error(v, pow=[p, float(p), np.int64(p)][int(rng.integers(3))]), dtype=float)
             add({"kind": "steperr", "v": enc_seq(v), "pow": p, "out": enc_seq(err)}, {"kind": "steperr", "n": n, "pow": p, "shape": shape, "mean": float(np.mean(v))})
         # split sample: interior, or the first / last sample (one side is then empty: only the other level is stated)
         ind = [int(rng.integers(1, n - 1)), 0, n - 1, int(rng.integers(1, n - 1))][int(rng.integers(4))]
